@@ -302,14 +302,34 @@ pub enum QOp {
     Space,
 }
 
-pub fn run_queue(base: Instant, send_buf: usize, recv_buf: usize, seq: &[QOp]) -> Result<(Vec<(String, String)>, u64, Vec<u64>), String> {
+/// `start`: 0 = the sequence runs on an established connection; 1 / 2 = the client holds a session
+/// ticket and the sequence starts before the handshake (datagrams are early data), the server
+/// accepts (1) or rejects (2) early data; the first flush completes the handshake. 3 / 4 = as 1 / 2
+/// with a congestion window of two packets, so that most early datagrams are still queued when the
+/// server's answer arrives.
+pub fn run_queue(base: Instant, start: u8, send_buf: usize, recv_buf: usize, seq: &[QOp]) -> Result<(Vec<(String, String)>, u64, Vec<u64>), String> {
     guarded(|| {
         let mut cfg = cfg_by_name("default");
         cfg.client.dgram_send = Some(send_buf);
         cfg.server.dgram_recv = Some(Some(recv_buf));
         cfg.client.mtud = Mtud::Off;
         cfg.server.mtud = Mtud::Off;
-        let mut p = establish(base, &cfg, &MtuState::Initial);
+        let mut p = if start == 0 {
+            establish(base, &cfg, &MtuState::Initial)
+        } else {
+            cfg.ticket = Some(crate::mtls::Ticket { server_params: crate::checks::c17::remembered(base, &cfg), secret: [7; 16] });
+            cfg.accept_early = start == 1 || start == 3;
+            if start >= 3 {
+                cfg.client.controller = crate::sim::Ctl::Fixed(2400);
+            }
+            let mut p: StdPair = std_pair_plans(base, &cfg, idle(), idle());
+            p.w.keep_data = true;
+            if !p.client().conn.has_0rtt() {
+                machinery("queue model: the ticket did not enable 0-RTT");
+            }
+            p
+        };
+        let mut handshaking = start != 0;
         let cch = p.cch;
         let mut viol = vec![];
         // model
@@ -328,7 +348,7 @@ pub fn run_queue(base: Instant, send_buf: usize, recv_buf: usize, seq: &[QOp]) -
             {
                 // reference-model state reached before this operation
                 let mut sh = std::collections::hash_map::DefaultHasher::new();
-                (send_buf, recv_buf, q.iter().map(|x| x.1).collect::<Vec<_>>(), blocked, rxq.iter().map(|x| x.1).collect::<Vec<_>>()).hash(&mut sh);
+                (send_buf, recv_buf, q.iter().map(|x| x.1).collect::<Vec<_>>(), blocked, rxq.iter().map(|x| x.1).collect::<Vec<_>>(), handshaking, start).hash(&mut sh);
                 states.push(sh.finish());
             }
             match op {
@@ -381,11 +401,21 @@ pub fn run_queue(base: Instant, send_buf: usize, recv_buf: usize, seq: &[QOp]) -
                 QOp::Flush => {
                     let ev0 = p.client().all_events.len();
                     p.w.settle_conn(CLIENT, cch);
-                    for _ in 0..200 {
-                        if p.w.net.is_empty() {
+                    for _ in 0..600 {
+                        let queued = p.w.nodes[CLIENT].conns.get(&cch).map_or(0, |s| s.conn.verif_probe().datagram_outgoing);
+                        if p.w.net.is_empty() && (queued == 0 || start < 3) {
                             break;
                         }
                         p.w.step();
+                    }
+                    let accepting = start == 1 || start == 3;
+                    let rejected_now = handshaking && !accepting;
+                    if handshaking {
+                        handshaking = false;
+                        if !p.client().app.obs.connected || p.client().conn.accepted_0rtt() != accepting {
+                            viol.push(("queue-model-setup".into(), format!("step {i}: handshake outcome unexpected: connected={} accepted_0rtt={}", p.client().app.obs.connected, p.client().conn.accepted_0rtt())));
+                            break;
+                        }
                     }
                     let unblocked = p.client().all_events[ev0..].iter().filter(|e| e.contains("DatagramsUnblocked")).count();
                     let sent_any = !q.is_empty();
@@ -396,6 +426,10 @@ pub fn run_queue(base: Instant, send_buf: usize, recv_buf: usize, seq: &[QOp]) -
                     }
                     if sent_any {
                         blocked = false;
+                    }
+                    // rejected early data: whatever was handed to send() before is gone, sent or not
+                    if rejected_now {
+                        q.clear();
                     }
                     // everything queued is transmitted in order and reaches the receive buffer,
                     // which drops the oldest when it overflows
@@ -408,10 +442,12 @@ pub fn run_queue(base: Instant, send_buf: usize, recv_buf: usize, seq: &[QOp]) -
                 }
                 QOp::Recv => {
                     let got: Vec<Vec<u8>> = {
-                        let s = p.server_mut().unwrap();
                         let mut v = vec![];
-                        while let Some(d) = s.conn.datagrams().recv() {
-                            v.push(d.to_vec());
+                        // (no server connection yet while a 0-RTT start has not been flushed)
+                        if let Some(s) = p.server_mut() {
+                            while let Some(d) = s.conn.datagrams().recv() {
+                                v.push(d.to_vec());
+                            }
                         }
                         v
                     };
@@ -571,9 +607,10 @@ pub fn main(args: &Args) -> ! {
         }
     }
     // (b)
-    let depth = if thorough { 6 } else { 5 };
+    let depth0 = if thorough { 6 } else { 5 };
     let mut qtasks = vec![];
-    for (sb, rb) in [(3000usize, 3000usize), (3000, 1000), (900, 3000)] {
+    for (start, sb, rb) in [(0u8, 3000usize, 3000usize), (0, 3000, 1000), (0, 900, 3000), (1, 3000, 3000), (2, 3000, 3000), (2, 900, 3000), (3, 3000, 3000), (4, 3000, 3000)] {
+        let depth = if start == 0 { depth0 } else { depth0 - 1 };
         let b = sb;
         let lens = [1usize, b / 3, b / 2, b.min(1100)];
         let mut ops = vec![QOp::Flush, QOp::Recv, QOp::Space];
@@ -585,7 +622,7 @@ pub fn main(args: &Args) -> ! {
         loop {
             let seq: Vec<QOp> = idx.iter().map(|i| ops[*i]).collect();
             if matches!(seq[0], QOp::Send(..)) {
-                qtasks.push((sb, rb, seq));
+                qtasks.push((start, sb, rb, seq));
             }
             let mut k = depth;
             let mut done = false;
@@ -607,18 +644,23 @@ pub fn main(args: &Args) -> ! {
         }
     }
     let n_q = qtasks.len();
-    let (qres, capped) = e3(qtasks, dl, |(sb, rb, seq)| {
+    let depth = depth0;
+    let (qres, capped) = e3(qtasks, dl, |(start, sb, rb, seq)| {
         // always end with a flush and a receive so that everything is compared
         let mut s = seq.clone();
         s.push(QOp::Flush);
         s.push(QOp::Recv);
-        run_queue(base, *sb, *rb, &s)
+        run_queue(base, *start, *sb, *rb, &s)
     });
     rep.exhaustive &= !capped;
     let mut model_states: std::collections::BTreeSet<u64> = Default::default();
-    for ((sb, rb, seq), r) in &qres {
+    let mut early_runs = 0u64;
+    for ((start, sb, rb, seq), r) in &qres {
         rep.evaluations += 1;
-        let rj = json!({"check":"c16","kind":"queue","send_buf":sb,"recv_buf":rb,"seq":seq.iter().map(|o| format!("{o:?}")).collect::<Vec<_>>()});
+        if *start != 0 {
+            early_runs += 1;
+        }
+        let rj = json!({"check":"c16","kind":"queue","start":start,"send_buf":sb,"recv_buf":rb,"seq":seq.iter().map(|o| format!("{o:?}")).collect::<Vec<_>>()});
         match r {
             Err(e) => rep.violation(Violation { signature: "panic".into(), what: format!("queue {seq:?}: panic: {e}"), replay: rj }),
             Ok((viol, h, states)) => {
@@ -626,13 +668,13 @@ pub fn main(args: &Args) -> ! {
                 rep.transitions += states.len() as u64;
                 model_states.extend(states.iter().copied());
                 for (sig, what) in viol {
-                    rep.violation(Violation { signature: sig.clone(), what: format!("send buffer {sb} receive buffer {rb} sequence {seq:?}: {what}"), replay: rj.clone() });
+                    rep.violation(Violation { signature: sig.clone(), what: format!("start={} send buffer {sb} receive buffer {rb} sequence {seq:?}: {what}", ["established", "0-RTT accepted", "0-RTT rejected", "0-RTT accepted, cwnd 2400", "0-RTT rejected, cwnd 2400"][*start as usize]), replay: rj.clone() });
                 }
             }
         }
     }
     rep.states = model_states.len() as u64;
-    rep.part("queue_model", json!({"distinct_model_states": model_states.len(), "model_steps_compared": rep.transitions, "depth": depth, "sequences": n_q, "executed": qres.len(), "capped": capped}));
+    rep.part("queue_model", json!({"distinct_model_states": model_states.len(), "model_steps_compared": rep.transitions, "depth": depth, "depth_for_0rtt_starts": depth - 1, "sequences_starting_in_0rtt": early_runs, "sequences": n_q, "executed": qres.len(), "capped": capped}));
     // (c)
     let cs = e2_integrity_cases(thorough);
     let alts: &[crate::sim::Fate] = if thorough { &FATE_ALTS } else { &FATE_ALTS3 };
@@ -678,7 +720,7 @@ fn replay(v: &Value) -> ! {
             let mut seq: Vec<QOp> = r["seq"].as_array().unwrap().iter().map(|x| parse(x.as_str().unwrap())).collect();
             seq.push(QOp::Flush);
             seq.push(QOp::Recv);
-            println!("{:?}", run_queue(Instant::now(), r["send_buf"].as_u64().unwrap() as usize, r["recv_buf"].as_u64().unwrap() as usize, &seq));
+            println!("{:?}", run_queue(Instant::now(), r["start"].as_u64().unwrap_or(0) as u8, r["send_buf"].as_u64().unwrap() as usize, r["recv_buf"].as_u64().unwrap() as usize, &seq));
         }
         k => println!("unknown kind {k}"),
     }
